@@ -293,6 +293,7 @@ class IRGenerator:
         self._populate_field_defaults()
         self._populate_enumerated_subtypes()
         self._populate_route_attributes()
+        self._validate_types_behind_aliases()
         self._populate_recursive_custom_annotations()
         self._populate_examples()
         self._validate_doc_refs()
@@ -930,6 +931,60 @@ class IRGenerator:
                                 (quote(field._ast_node.name), e),
                                 field._ast_node.lineno, field._ast_node.path)
                     field.set_default(default_value)
+
+    def _validate_types_behind_aliases(self):
+        """
+        The rules about Void and nullable types are checked where a type is
+        referenced, and at that point an alias in the reference may not have
+        been resolved yet. Now that every alias is, apply the same rules to
+        what the aliases stand for.
+        """
+        def check_nesting(data_type, ast_node):
+            # Aliases are checked where they are defined.
+            if is_nullable_type(data_type):
+                inner, _ = unwrap_aliases(data_type.data_type)
+                if is_nullable_type(inner):
+                    raise InvalidSpec(
+                        'Cannot mark reference to nullable type as nullable.',
+                        ast_node.lineno, ast_node.path)
+                check_nesting(data_type.data_type, ast_node)
+            elif is_list_type(data_type):
+                check_nesting(data_type.data_type, ast_node)
+            elif is_map_type(data_type):
+                check_nesting(data_type.value_data_type, ast_node)
+
+        for namespace in self.api.namespaces.values():
+            for alias in namespace.aliases:
+                check_nesting(alias.data_type, alias._ast_node)
+            for data_type in namespace.data_types:
+                for field in data_type.fields:
+                    ast_node = field._ast_node
+                    check_nesting(field.data_type, ast_node)
+                    if not is_alias(field.data_type):
+                        continue
+                    target, _ = unwrap_aliases(field.data_type)
+                    if is_struct_type(data_type):
+                        if is_void_type(target):
+                            raise InvalidSpec(
+                                'Struct field %s cannot have a Void type.' %
+                                quote(field.name),
+                                ast_node.lineno, ast_node.path)
+                        if is_nullable_type(target) and ast_node.has_default:
+                            raise InvalidSpec(
+                                'Field %s cannot be a nullable '
+                                'type and have a default specified.' %
+                                quote(field.name),
+                                ast_node.lineno, ast_node.path)
+                    elif is_void_type(target):
+                        raise InvalidSpec(
+                            'Union member %s cannot have Void '
+                            'type explicit, omit Void instead.' %
+                            quote(field.name),
+                            ast_node.lineno, ast_node.path)
+            for route in namespace.routes:
+                for data_type in (route.arg_data_type, route.result_data_type,
+                                  route.error_data_type):
+                    check_nesting(data_type, route._ast_node)
 
     def _populate_route_attributes(self):
         """
